@@ -455,6 +455,30 @@ Definition g_yansi_render (o : ya_oracle) (ENABLED0 : bool) (st : ya_style) : op
 """
 
 
+def coq_bytes(name):
+    return "[%s]" % "; ".join(str(b) for b in name.encode())
+
+
+def name_tables(macros_src):
+    """the NAMES the adapter crate (and Spec/Targets.v) use for yansi values, read from the source: the builder
+    methods of `define_properties! { .. attr(Attribute) { bold => Attribute::Bold, .. } .. }` (macros.rs) and the
+    nullary constructors of `enum Color` (checked above against COLOR_VARIANTS)"""
+    m = re.findall(r"\battr\s*\(\s*Attribute\s*\)\s*\{([^}]*)\}", macros_src)
+    if len(m) != 1:
+        raise TranslateError("macros.rs: define_properties!: %d blocks `attr(Attribute) { .. }`" % len(m))
+    ents = [e.strip() for e in m[0].split(",") if e.strip()]
+    rows = []
+    for e in ents:
+        mm = re.match(r"^(\w+)\s*=>\s*Attribute::(\w+)$", e)
+        if not mm or mm.group(2) not in ATTR_VARIANTS:
+            raise TranslateError("macros.rs: define_properties!: attr entry `%s`" % e)
+        rows.append("(%s, Ya%s) (* %s *)" % (coq_bytes(mm.group(1)), mm.group(2), mm.group(1)))
+    cols = ["(%s, Ya%s) (* %s *)" % (coq_bytes(n), n, n) for n, p in COLOR_VARIANTS if not p]
+    return ("(* ---- names: builder method -> Attribute (macros.rs define_properties!), nullary constructor of Color -> value ---- *)\n"
+            "Definition g_ya_attr_builders : list (list N * ya_attr) := [\n  %s].\n\n"
+            "Definition g_ya_color_ctors : list (list N * ya_color) := [\n  %s].\n" % (";\n  ".join(rows), ";\n  ".join(cols)))
+
+
 def check_enum(items, name, expected, fname):
     ens = find_items(items, "enum", name)
     if len(ens) != 1:
@@ -639,6 +663,7 @@ def register(generators, gm):
             out.append("(* ---- expansion of impl_fmt_traits!(<T> Painted<T> => self.value (T)) (macros.rs), the Display impl ---- *)")
             out.append(translate(expand_fmt_trait(src["macros.rs"], src["paint.rs"]), vocab(**pv),
                                  [("fmt", "Painted", "g_ya_painted_fmt", {"trait": "Display"})], "", "", shapes))
+            out.append(name_tables(src["macros.rs"]))
             out.append(ENTRY)
             return "\n".join(out) + "\n"
         except TranslateError as e:
